@@ -24,7 +24,9 @@ The same case stream serves every property the part contributes to; the monitor 
 """
 import importlib
 
-from vlib.framework import Prop
+import os
+
+from vlib.framework import Prop, COQ
 
 
 def load_part(name):
@@ -36,6 +38,7 @@ class Composite(Prop):
         self.id = pid
         self.parts = {}
         self.missing_parts = []
+        self.missing_files = []
         for n in part_names:
             try:
                 p = load_part(n)
@@ -44,12 +47,18 @@ class Composite(Prop):
                     raise
                 self.missing_parts.append(n)     # part not built yet
                 continue
+            except Exception as e:               # part under construction / broken: reported, never silent
+                self.missing_parts.append(f"{n} (failed to load: {type(e).__name__}: {e})")
+                continue
             if pid in getattr(p, "serves", [pid]):
                 self.parts[p.name] = p
         files = list(extra_props_files)
         imports = []
         for p in self.parts.values():
             for f in p.props_files.get(pid, []):
+                if not os.path.exists(os.path.join(COQ, f)):
+                    self.missing_files.append(f)       # theorems of this part not written yet
+                    continue
                 if f not in files:
                     files.append(f)
             for l in p.coq_imports:
@@ -60,6 +69,10 @@ class Composite(Prop):
         self.trusted_base = self._collect("trusted_base")
         self.assumptions = self._collect("assumptions")
         self.partial = self._collect("partial")
+        if self.missing_files:
+            self.partial.append("theorem files not present yet: " + ", ".join(self.missing_files))
+        if self.missing_parts:
+            self.partial.append("element parts not built yet: " + ", ".join(self.missing_parts))
         rules = []
         for p in self.parts.values():
             r = getattr(p, "nontrivial_rule", {})
@@ -96,6 +109,9 @@ class Composite(Prop):
 
     def agree_term(self, case, obs):
         return self._part(case).agree_term(case, obs)
+
+    def case_imports(self, case):
+        return self._part(case).coq_imports
 
     def model_term(self, case):
         return self._part(case).model_term(case)
